@@ -119,9 +119,9 @@ class LifeScn(Scn):
         w = World(d["backend"], 3, app_id="c10l")
         self.w = w
         kind = d["queue"]
-        if kind == "retry":
+        if kind in ("retry", "fail"):
             w.bind(tasks.scripted, max_retries=2)
-            plan = {"a": ["retry", "ok"]}
+            plan = {"a": ["retry", "ok"] if kind == "retry" else ["retry", "fail"]}
 
             def script(name: str, x: int) -> Any:
                 from pynenc.exceptions import RetryError
@@ -129,6 +129,8 @@ class LifeScn(Scn):
                 step = plan[name].pop(0) if plan.get(name) else "ok"
                 if step == "retry":
                     raise RetryError(name)
+                if step == "fail":
+                    raise ValueError(name)
                 return x
             tasks.HOOKS["script"] = script
             w.ids = [str(w.task("scripted", 2)("a", 1).invocation_id)]
@@ -179,7 +181,7 @@ class LifeScn(Scn):
         return (recs, oks, hs, ex.outcome)
 
 
-LIFE_KINDS = ("retry", "cc", "cc-final")
+LIFE_KINDS = ("retry", "fail", "cc", "cc-final")
 
 
 def build(desc: dict) -> Scn:
